@@ -135,6 +135,15 @@ func (r *Result) Merge(o *Result) {
 }
 
 // Env is what a worker gets.
+// VerifDir is the framework's home (known findings, evidence, replays, build
+// output): /verif unless VERIF_DIR names a scratch copy.
+func VerifDir() string {
+	if d := os.Getenv("VERIF_DIR"); d != "" {
+		return d
+	}
+	return "/verif"
+}
+
 type Env struct {
 	Tier     string
 	Shard    int
